@@ -638,6 +638,7 @@ func (fr *Frame) enterLoop(order []*ssa.BasicBlock, h *ssa.BasicBlock, ins []edg
 			break
 		}
 		hv := fr.havocVal(phi.Type(), fr.name(phi)+"@loop")
+		u.loadedFacts(st, hv) // loop-carried references are allocated ones
 		fr.vals[phi] = hv
 		lc.phiVals[phi] = hv
 		// slice range index facts: rangeindex >= -1
